@@ -391,7 +391,10 @@ def main():
         # random instance is independent of the code under test: retry with a derived seed and record it
         for attempt in range(4):
             try:
-                cases += mod.generate(rng if attempt == 0 else common.Rng(seed * 7919 + 104729 * attempt), tier, ctx)
+                for c in mod.generate(rng if attempt == 0 else common.Rng(seed * 7919 + 104729 * attempt), tier, ctx):
+                    if len(c) > 2 and c[2] is not None:       # (line, tag, expected output): the SPECIFIED result, computed independently
+                        expected[len(cases)] = c[2].split()
+                    cases.append((c[0], c[1]))
                 break
             except (AssertionError, IndexError, ValueError, KeyError) as e:
                 notes.setdefault('generator_retries', []).append('%s attempt %d: %s: %s' % (g, attempt, type(e).__name__, str(e)[:200]))
@@ -411,13 +414,23 @@ def main():
     vec_bad = 0
     for k, exp in expected.items():
         got = mout[k].split()
-        if got[:len(exp)] != exp:
+        ok_exp = got[:len(exp)] == exp
+        if exp and exp[0].startswith('@valmodp:'):     # '@valmodp:<limb bits>:<hex>': the first output token is a limb list whose VALUE mod p is specified
+            _, bits, want = exp[0].split(':')
+            try:
+                v = sum(int(x, 16) << (int(bits) * i) for i, x in enumerate(got[0].split(',')))
+                ok_exp = v % ((1 << 256) - (1 << 32) - 977) == int(want, 16)
+            except (ValueError, IndexError):
+                ok_exp = False
+        if not ok_exp:
             vec_bad += 1
-            p = write_replay(pid, seed, len(violations), {'kind': 'model-vs-published-vector', 'line': lines[k], 'model': mout[k], 'expected_prefix': exp})
+            p = write_replay(pid, seed, len(violations), {'kind': 'model-vs-published-vector' if tags[k][0] == 'corpus' else 'regenerated-code-vs-specification', 'line': lines[k], 'model': mout[k], 'expected_prefix': exp, 'tag': list(tags[k])})
             violations.append((p, ''))
-    if expected: log('%d published vectors checked against the model, %d mismatches' % (len(expected), vec_bad))
+    if expected: log('%d published vectors / specified results checked against the model, %d mismatches' % (len(expected), vec_bad))
     known = load_known()
-    known_lines = {f['line']: f for f in known.get('findings', []) if f.get('property') == pid and 'line' in f}
+    known_lines = {}      # (line, config or None) -> finding
+    for f in known.get('findings', []):
+        if f.get('property') == pid and 'line' in f: known_lines[(f['line'], f.get('config'))] = f
     known_hit = set()
     for conf in configs:
         spec = props.CONFIG_RUN.get(conf, {})
@@ -453,8 +466,9 @@ def main():
                 hist[fam]['outs'][key] = hist[fam]['outs'].get(key, 0) + 1
             if i == 'skip': continue
             if m != i or m.startswith('ERR') or i.startswith('ERR'):
-                if l in known_lines and known_lines[l].get('config') in (None, conf):
-                    known_hit.add(l); continue
+                kf = (l, conf) if (l, conf) in known_lines else (l, None) if (l, None) in known_lines else None
+                if kf is not None:
+                    known_hit.add(kf); continue
                 nd += 1
                 if nd <= 5:
                     p = write_replay(pid, seed, len(violations), {'kind': 'model-impl-disagreement', 'config': conf, 'line': l, 'model': m, 'impl': i, 'tag': list(tags[k])})
@@ -472,7 +486,7 @@ def main():
                              'replay': 'build harness/ctime.c in this configuration and run `valgrind ./ctime %d`' % max(f['context_variation'], 0)})
             violations.append((p, ''))
     for l in known_hit:
-        print('KNOWN-FINDING: property=%s %s' % (pid, known_lines[l].get('what', l[:80])))
+        print('KNOWN-FINDING: property=%s %s' % (pid, known_lines[l].get('what', l[0][:80])))
 
     # ---- 5. proof obligation broken: search result decides the suffix
     if proof_broken:
@@ -514,7 +528,7 @@ def main():
         'assumptions': cfg.get('assumptions', []) + manifest_note(pid),
         'wall_s': round(time.time() - t0, 2),
         'violations': len(violations),
-        'known_findings_reproduced': [{'line': l, 'what': known_lines[l].get('what', '')[:300]} for l in sorted(known_hit)],
+        'known_findings_reproduced': [{'line': l[0], 'config': l[1], 'what': known_lines[l].get('what', '')[:300]} for l in sorted(known_hit, key=str)],
     }
     if proof_broken:
         # a broken proof obligation: no theorem count is claimed for this run
